@@ -201,7 +201,7 @@ func pmonitor(k *PCase) []c.Hit {
 		case "arrive":
 			g := group(e.Rem)
 			rc := k.Remedies[e.Rem]
-			r := &pmreq{id: e.ID, prio: mprio(rc, e.Hdrs), ts: e.Ts, at: e.At, ttl: rc.TTLHalf * (sec / 2), qsize: rc.QSize}
+			r := &pmreq{id: e.ID, prio: mprio(rc, e.Hdrs), ts: e.Ts, at: e.At, ttl: rc.TTL8 * (sec / 8), qsize: rc.QSize}
 			reqs[e.ID], reqGroup[e.ID] = r, g
 			if e.Immediate {
 				if verdict(e, e.Rem) {
